@@ -39,7 +39,7 @@ func retarget(ln J, from, to string) J {
 }
 
 func streamC02(c *Ctx) {
-	c.Rule = "twin collections holding identical documents with index sets {} / {filter field} / {sort field} / {x,xy or n,n.a} created before, between or after the writes; " +
+	c.Rule = "systematic cells (every leaf form on the indexed field x operand kind incl. nil, Field(f), \"$f\", mixed lists x wrapper Not/And/Or x sort) on a fixed boundary-rich collection with twins {} / {x} / {x,y}; then twin collections holding identical documents with index sets {} / {filter field} / {sort field} / {x,xy or n,n.a} created before, between or after the writes; " +
 		"the same random queries (criteria depth<=3 with nil/field-reference operands, sort, skip, limit), bulk updates and deletes on every twin; each answer checked against the Lean spec (which ignores indexes) and twins compared pairwise; " +
 		"non-trivial = distinct (query, result) with a non-empty result on a twin that has an index"
 	dr := StartDriver(c.DriverBin)
@@ -50,6 +50,10 @@ func streamC02(c *Ctx) {
 	twins := []string{"t0", "t1", "t2", "measurements3"}
 	for _, be := range backendsAll {
 		im := NewImpl(be, c.Scratch)
+		if !c02Cells(c, dr, im, be, !c.Quick()) {
+			im.Destroy()
+			return
+		}
 		for hN := 0; hN < nHist; hN++ {
 			g := NewGen(c.Rng, dm)
 			h := NewHistGen(g, 1, 3)
@@ -125,41 +129,151 @@ func streamC02(c *Ctx) {
 				im.Destroy()
 				return
 			}
-			// pairwise twin comparison on the implementation alone
-			byQ := map[int][]int{}
-			for i, ln := range lines {
-				if n, ok := ln["qid"]; ok {
-					byQ[asInt(n)] = append(byQ[asInt(n)], i)
-				}
-			}
-			for _, idxs := range byQ {
-				base := o.Results[idxs[0]]
-				q, _ := qOf(lines[idxs[0]])
-				_, hs := q["skip"]
-				_, hl := q["limit"]
-				for _, i := range idxs[1:] {
-					r := o.Results[i]
-					same := r.Impl == base.Impl
-					if !same {
-						bd, ok1 := splitDocs(base.Impl)
-						rd, ok2 := splitDocs(r.Impl)
-						if ok1 && ok2 && !qSorted(q) && !hs && !hl {
-							same = sameMultiset(bd, rd)
-						} else if ok1 && ok2 {
-							same = true // ordered / windowed answers were checked against the spec classes
-						}
-					}
-					if !same {
-						c.Violation(&Replay{Backend: be, Stream: "history", Case: toIfaces(lines[:i+1]), FirstDivergence: i,
-							Expected: []string{base.Impl}, Actual: []string{r.Impl}, Note: "twin collections with different indexes answer differently"})
-						im.Destroy()
-						return
-					}
-				}
+			if !compareTwins(c, lines, &o, be) {
+				im.Destroy()
+				return
 			}
 		}
 		im.Destroy()
 	}
+}
+
+
+// compareTwins: the same query on twin collections (same documents, different indexes) must give the same answer
+func compareTwins(c *Ctx, lines []J, o *HistoryOutcome, be string) bool {
+	byQ := map[int][]int{}
+	for i, ln := range lines {
+		if n, ok := ln["qid"]; ok {
+			byQ[asInt(n)] = append(byQ[asInt(n)], i)
+		}
+	}
+	for _, idxs := range byQ {
+		base := o.Results[idxs[0]]
+		q, _ := qOf(lines[idxs[0]])
+		_, hs := q["skip"]
+		_, hl := q["limit"]
+		for _, i := range idxs[1:] {
+			r := o.Results[i]
+			same := r.Impl == base.Impl
+			if !same {
+				bd, ok1 := splitDocs(base.Impl)
+				rd, ok2 := splitDocs(r.Impl)
+				if ok1 && ok2 && !qSorted(q) && !hs && !hl {
+					same = sameMultiset(bd, rd)
+				} else if ok1 && ok2 {
+					same = true // ordered / windowed answers were checked against the spec classes
+				}
+			}
+			if !same {
+				c.Violation(&Replay{Backend: be, Stream: "history", Case: toIfaces(lines[:i+1]), FirstDivergence: i,
+					Expected: []string{base.Impl}, Actual: []string{r.Impl}, Note: "twin collections with different indexes answer differently"})
+				return false
+			}
+		}
+	}
+	return true
+}
+
+// c02Cells: the systematic part of the twin comparison. A fixed boundary-rich collection (absent, nil, mixed
+// types, ties, y = x for some documents) on twins without index / with an index on x / on x and y; every leaf
+// form on the indexed field x operand kind (literal present or absent in the data, another numeric type, nil,
+// Field(y), "$y", lists mixing these) x wrapper (plain, Not, double Not, And with a second range on the same
+// field on either side, And with another field, Or) x sort (none, the indexed field in both directions, another field).
+func c02Cells(c *Ctx, dr *Driver, im *Impl, be string, full bool) bool {
+	twins := []string{"u0", "u1", "u2"}
+	lines := []J{}
+	for _, t := range twins {
+		lines = append(lines, opLine("createCollection", J{"coll": hx(t)}))
+	}
+	lines = append(lines, opLine("createIndex", J{"coll": hx("u1"), "field": hx("x")}),
+		opLine("createIndex", J{"coll": hx("u2"), "field": hx("y")}), opLine("createIndex", J{"coll": hx("u2"), "field": hx("x")}))
+	xs := []interface{}{"absent", nil, int64(1), int64(5), float64(5), uint64(5), int64(6), uint64(7), float64(2.5), "a", "ab", "", true,
+		mkTime(1577934245000000006, 3600), []interface{}{int64(1), "a"}, map[string]interface{}{"a": int64(1)}, int64(5), "a"}
+	ys := []interface{}{int64(5), "a", "absent", nil, int64(5), int64(6), "absent", uint64(7), "x", "a", "a", int64(1), true,
+		int64(0), []interface{}{int64(1), "a"}, int64(2), "absent", "ab"}
+	docs := []interface{}{}
+	for i := range xs {
+		m := map[string]interface{}{"_id": fixedId(i + 1)}
+		if xs[i] != "absent" {
+			m["x"] = xs[i]
+		}
+		if ys[i] != "absent" {
+			m["y"] = ys[i]
+		}
+		if i%5 == 0 {
+			m["arr"] = []interface{}{int64(5), "a", xs[i]}
+		}
+		docs = append(docs, encDoc(m))
+	}
+	for _, t := range twins {
+		lines = append(lines, opLine("insert", J{"coll": hx(t), "docs": docs}))
+	}
+	lit := func(v interface{}) J { return J{"lit": encValue(v)} }
+	operands := []interface{}{lit(int64(5)), lit(float64(5)), lit(int64(4)), lit("a"), J{"lit": nil}, J{"ref": hx("y")}, lit("$y"), lit("$zz"), lit(true)}
+	fx := hx("x")
+	leaves := []J{}
+	for _, op := range []string{"eq", "gt", "ge", "lt", "le"} {
+		for _, o := range operands {
+			leaves = append(leaves, J{"cmp": []interface{}{op, fx, o}})
+		}
+	}
+	lists := [][]interface{}{{lit(int64(5))}, {lit(int64(5)), lit("a")}, {lit("$y")}, {J{"ref": hx("y")}}, {J{"lit": nil}}, {lit(int64(1)), lit("$y")},
+		{lit(int64(7)), J{"ref": hx("y")}, lit(int64(1))}, {}, {lit(int64(5)), lit(float64(5))}}
+	for _, l := range lists {
+		leaves = append(leaves, J{"in": []interface{}{fx, l}}, J{"contains": []interface{}{fx, l}}, J{"contains": []interface{}{hx("arr"), l}})
+	}
+	leaves = append(leaves, J{"like": []interface{}{fx, hx("^a")}}, J{"exists": fx}, J{"not": J{"exists": fx}}, J{"fn": 2}, J{"fn": 3})
+	r1 := J{"cmp": []interface{}{"ge", fx, lit(int64(2))}}
+	r2 := J{"cmp": []interface{}{"le", fx, lit(int64(6))}}
+	wrap := func(w int, l J) J {
+		switch w {
+		case 1:
+			return J{"not": l}
+		case 2:
+			return J{"not": J{"not": l}}
+		case 3:
+			return J{"and": []interface{}{l, r1}}
+		case 4:
+			return J{"and": []interface{}{r2, l}}
+		case 5:
+			return J{"and": []interface{}{l, J{"cmp": []interface{}{"eq", hx("y"), lit("a")}}}}
+		case 6:
+			return J{"or": []interface{}{l, J{"cmp": []interface{}{"eq", fx, lit(int64(1))}}}}
+		case 7:
+			return J{"and": []interface{}{J{"not": l}, r1}}
+		}
+		return l
+	}
+	sorts := []interface{}{nil, []interface{}{[]interface{}{fx, 1}}, []interface{}{[]interface{}{fx, -1}}, []interface{}{[]interface{}{hx("y"), 1}, []interface{}{hx("_id"), 1}}}
+	qid := 0
+	for li, l := range leaves {
+		for w := 0; w < 8; w++ {
+			for si, srt := range sorts {
+				if !full && (li+w+si+int(c.Seed))%3 != 0 {
+					continue // quick tier: a third of the cells, rotating with the seed
+				}
+				q := J{"coll": hx("U"), "crit": wrap(w, l)}
+				if srt != nil {
+					q["sort"] = srt
+				}
+				qid++
+				for ti, t := range twins {
+					ln := retarget(opLine("findAll", J{"q": q}), "U", t)
+					ln["qid"] = qid
+					ln["twin"] = ti
+					lines = append(lines, ln)
+				}
+			}
+		}
+	}
+	o := runHistory(dr, im, lines, HistOpts{})
+	recordHistory(c, lines, &o, be)
+	c.Count(fmt.Sprintf("cells:%d", qid))
+	if o.Index >= 0 {
+		reportHistoryProblem(c, dr, im, lines, &o, be, HistOpts{}, "cells")
+		return false
+	}
+	return compareTwins(c, lines, &o, be)
 }
 
 // ---- C03: bulk update / delete over collections of many sizes ----
